@@ -306,13 +306,16 @@ def r5(ck, F):
             ck.bad("C01.R5", "callsite interest = Interest::and-fold over all dispatchers; none -> never", where(rci.raw["sp"]), why, fn=rci.path)
         # the only element dropped is a dead registrar; each live one is asked register_callsite(meta of this callsite)
         c0 = F.body(CS + "rebuild_callsite_interest::{closure#0}")
-        c00 = F.body(CS + "rebuild_callsite_interest::{closure#0}::{closure#0}")
-        ok = c0 is not None and c00 is not None
+        ok = c0 is not None
         if ok:
             ps = [p for p in PathEval(c0).run() if p.end == "return"]
             ok = len(ps) == 1 and ps[0].ret[0] == "call" and ps[0].ret[1].endswith("Option::<T>::map") and \
                 ps[0].ret[2][0][0] == "call" and ps[0].ret[2][0][1].endswith("Registrar::upgrade") and ps[0].ret[2][0][2] == (("arg", 2),)
-            ps2 = [p for p in PathEval(c00).run() if p.end == "return"]
+            # the closure handed to map (wherever it is defined: in place, or in a helper inlined into c0)
+            from rulekit.query import closure_of_term
+            c00 = F.body(closure_of_term(ps[0].ret[2][1]) or "") if ok and len(ps[0].ret[2]) > 1 else None
+            ok = ok and c00 is not None
+            ps2 = [p for p in PathEval(c00).run() if p.end == "return"] if c00 is not None else []
             ok = ok and len(ps2) == 1 and ps2[0].ret[0] == "call" and ps2[0].ret[1] == "tracing_core::dispatch::Dispatch::register_callsite"
         if ok:
             ck.ok("C01.R5", "filter_map drops only dead registrars; live ones are asked register_callsite", fn=c0.path)
